@@ -9,7 +9,7 @@ import tempfile
 VERIF = os.path.dirname(os.path.dirname(os.path.abspath(__file__)))
 REPO = os.environ.get("VERIF_REPO", "/repo")
 LEAN_DIR = os.path.join(VERIF, "lean")
-DRIVER = os.path.join(LEAN_DIR, ".lake", "build", "bin", "driver")
+DRIVER = os.environ.get("VERIF_DRIVER") or os.path.join(LEAN_DIR, ".lake", "build", "bin", "driver")
 
 
 def use_repo():
